@@ -35,7 +35,18 @@ type cutConn struct {
 	closed     bool
 	oneAtATime bool
 	withErr    bool // the transport returns its last bytes together with the error / EOF
+	tmoAt      int  // -1, or the stream position at which one read deadline expires (no bytes; the next call goes on)
+	tmoDone    bool
 }
+
+// errTmo is what a transport returns when its read deadline has passed.
+type tmoError struct{}
+
+func (tmoError) Error() string   { return "i/o timeout (scripted)" }
+func (tmoError) Timeout() bool   { return true }
+func (tmoError) Temporary() bool { return true }
+
+var errTmo error = tmoError{}
 
 func (c *cutConn) Read(p []byte) (int, error) {
 	c.mu.Lock()
@@ -46,7 +57,14 @@ func (c *cutConn) Read(p []byte) (int, error) {
 		}
 		return 0, errCut
 	}
+	if !c.tmoDone && c.tmoAt == c.pos {
+		c.tmoDone = true
+		return 0, errTmo
+	}
 	max := min(len(p), c.cutAt-c.pos)
+	if !c.tmoDone && c.tmoAt > c.pos {
+		max = min(max, c.tmoAt-c.pos)
+	}
 	if max == 0 {
 		return 0, nil
 	}
@@ -100,6 +118,7 @@ type pipeScen struct {
 	Brecs    []pipeBRec `json:"brecs"`
 	CutAt    int        `json:"cutAt"`
 	CutKind  string     `json:"cutKind"`
+	TmoAt    int        `json:"tmoAt"`
 	FirstIn  int        `json:"firstIn"`
 	FirstOut int        `json:"firstOut"`
 	Accepted bool       `json:"accepted"`
@@ -213,6 +232,23 @@ func runPipeScenario(r *rand.Rand, kr *keyring, w *ndWriter, idx int) {
 		sc.CutAt = len(cstream)
 	}
 	sc.CutKind = []string{"eof", "err"}[r.Intn(2)]
+	// one scenario in three: a read deadline expires once somewhere before the cut (an idle timeout the proxy extends)
+	sc.TmoAt = -1
+	if sc.CutAt > sc.FirstIn && r.Intn(3) == 0 {
+		sc.TmoAt = sc.FirstIn + r.Intn(sc.CutAt-sc.FirstIn)
+		if r.Intn(4) == 0 { // ... exactly at a record boundary
+			pos := sc.FirstIn
+			for _, pr := range sc.Crecs {
+				if pr.T == "BIG" || pos >= sc.CutAt || r.Intn(2) == 0 {
+					break
+				}
+				pos += 5 + pr.Len
+			}
+			if pos < sc.CutAt {
+				sc.TmoAt = pos
+			}
+		}
+	}
 	// expected output streams, truncated at the cut
 	shrink := sc.FirstIn - sc.FirstOut
 	outRawCut := outRaw[:sc.CutAt-shrink]
@@ -271,7 +307,7 @@ func runPipeScenario(r *rand.Rand, kr *keyring, w *ndWriter, idx int) {
 	}
 	w.Write(Ev{"e": "reset", "scen": sc, "idx": idx})
 
-	tr := &cutConn{r: rand.New(rand.NewSource(r.Int63())), data: cstream, cutAt: sc.CutAt, kind: sc.CutKind, oneAtATime: r.Intn(6) == 0, withErr: r.Intn(2) == 0}
+	tr := &cutConn{r: rand.New(rand.NewSource(r.Int63())), data: cstream, cutAt: sc.CutAt, kind: sc.CutKind, oneAtATime: r.Intn(6) == 0, withErr: r.Intn(2) == 0, tmoAt: sc.TmoAt}
 	var opts []ech.Option
 	opts = append(opts, ech.WithKeys(kr.serverKeys([]string{"K1"})))
 	crash := ""
@@ -288,6 +324,7 @@ func runPipeScenario(r *rand.Rand, kr *keyring, w *ndWriter, idx int) {
 		}
 		var got []byte
 		readDone, writeDone := false, false
+		tmoSeen := 0
 		wpos := 0
 		for !readDone || !writeDone {
 			doRead := !readDone && (writeDone || r.Intn(2) == 0)
@@ -323,13 +360,20 @@ func runPipeScenario(r *rand.Rand, kr *keyring, w *ndWriter, idx int) {
 					es = "eof"
 				case errors.Is(err, errCut):
 					es = "err"
+				case errors.Is(err, errTmo):
+					es = "tmo"
 				case errors.Is(err, ech.ErrDecodeError):
 					es = "decode"
 				default:
 					es = "other:" + err.Error()
 				}
 				w.Write(Ev{"e": "read", "cap": capn, "n": n, "err": es, "m": m})
-				if err != nil {
+				if es == "tmo" {
+					// the caller extends its deadline and reads again (three times at most if the error stays)
+					if tmoSeen++; tmoSeen >= 3 {
+						readDone = true
+					}
+				} else if err != nil {
 					readDone = true
 				}
 			} else {
